@@ -80,8 +80,9 @@ func replayBind(args []string) (any, error) {
 				Named bool   `json:"named"`
 				Name  string `json:"name"`
 			} `json:"args"`
-			Accepted bool    `json:"accepted"`
-			Binding  [][]any `json:"binding"`
+			Accepted bool     `json:"accepted"`
+			Binding  [][]any  `json:"binding"`
+			Kinds    []string `json:"kinds"`
 		}
 		if err := json.Unmarshal(raw, &v); err != nil {
 			return err
@@ -94,11 +95,37 @@ func replayBind(args []string) (any, error) {
 		}
 		parts := []string{}
 		npos := 0
+		argLit := func(k int) string { // the literal of argument k (1-based): kind by position, value carries k
+			switch k % 5 {
+			case 1:
+				return fmt.Sprint(k)
+			case 2:
+				return fmt.Sprintf("\"s%d\"", k)
+			case 3:
+				return fmt.Sprintf("%d.5", k)
+			case 4:
+				return "true"
+			}
+			return fmt.Sprintf("[%d]", k)
+		}
+		argVal := func(k int) any {
+			switch k % 5 {
+			case 1:
+				return int64(k)
+			case 2:
+				return fmt.Sprintf("s%d", k)
+			case 3:
+				return float64(k) + 0.5
+			case 4:
+				return true
+			}
+			return []any{int64(k)}
+		}
 		for k, a := range v.Args {
 			if a.Named {
-				parts = append(parts, fmt.Sprintf("%s=%d", a.Name, k+1))
+				parts = append(parts, fmt.Sprintf("%s=%s", a.Name, argLit(k+1)))
 			} else {
-				parts = append(parts, fmt.Sprint(k+1))
+				parts = append(parts, argLit(k+1))
 				npos++
 			}
 		}
@@ -106,6 +133,7 @@ func replayBind(args []string) (any, error) {
 		sig := "bind:" + sigText(v.Params) + text
 		var got []any
 		var getErr *errchain.PlError
+		typed := map[string][]bool{} // getter -> success per parameter
 		fn := map[string]*runtimev2.Fn{"f": {
 			CallCheck: func(ctx *runtimev2.Task, e *ast.CallExpr) *errchain.PlError {
 				return runtimev2.CheckPassParam(ctx, e, params)
@@ -118,6 +146,15 @@ func replayBind(args []string) (any, error) {
 						return err
 					}
 					got = append(got, x)
+					_, e1 := runtimev2.GetParamInt(ctx, e, params, i)
+					_, e2 := runtimev2.GetParamFloat(ctx, e, params, i)
+					_, e3 := runtimev2.GetParamBool(ctx, e, params, i)
+					_, e4 := runtimev2.GetParamString(ctx, e, params, i)
+					_, e5 := runtimev2.GetParamList(ctx, e, params, i)
+					_, e6 := runtimev2.GetParamMap(ctx, e, params, i)
+					for g, ee := range map[string]*errchain.PlError{"int": e1, "float": e2, "bool": e3, "str": e4, "list": e5, "map": e6} {
+						typed[g] = append(typed[g], ee == nil)
+					}
 				}
 				return nil
 			},
@@ -134,13 +171,13 @@ func replayBind(args []string) (any, error) {
 			for i, b := range v.Binding {
 				switch b[0].(string) {
 				case "arg":
-					want = append(want, int64(b[1].(float64)))
+					want = append(want, argVal(int(b[1].(float64))))
 				case "default":
 					want = append(want, fmt.Sprintf("def%d", i+1))
 				case "rest":
 					rest := []any{}
 					for k := int(b[1].(float64)); k <= npos; k++ {
-						rest = append(rest, int64(k))
+						rest = append(rest, argVal(k))
 					}
 					want = append(want, rest)
 				}
@@ -158,6 +195,22 @@ func replayBind(args []string) (any, error) {
 			}
 			if rerr != nil || getErr != nil || !reflect.DeepEqual(norm(got), norm(want)) {
 				sum.miss(sig, map[string]any{"params": v.Params, "call": text, "want": fmt.Sprint(want), "got": fmt.Sprint(got), "run_err": fmt.Sprint(rerr)})
+			} else {
+				for i, kind := range v.Kinds {
+					for g, oks := range typed {
+						wantOK := kind == g
+						if kind == "rest" {
+							wantOK = g == "list" // a variadic tail is a list (nil when empty: only the list getter is checked loosely)
+							if g != "list" || len(got[i].([]any)) == 0 {
+								continue
+							}
+						}
+						if i < len(oks) && oks[i] != wantOK {
+							sum.miss(sig+":getter:"+g, map[string]any{"params": v.Params, "call": text, "param": i, "bound_kind": kind, "getter": g,
+								"want_success": wantOK, "got_success": oks[i]})
+						}
+					}
+				}
 			}
 		}
 		sum.sample(map[string]any{"params": sigText(v.Params), "call": text, "accepted": v.Accepted, "binding": v.Binding})
